@@ -62,6 +62,41 @@ impl ScanRef {
     pub fn set2() -> ScanRef {
         ScanRef::parse(SET2_TSV)
     }
+    /// The property names the README conversion table as the authority.  If the tree adds a key
+    /// the harness does not know by name *and* documents it in the README table at a code this
+    /// reference leaves undefined, accept the README's assignment for that key (returns notes).
+    pub fn extend_from_readme(&mut self, set: u8, uni: &[KeyCode]) -> Vec<String> {
+        let path = std::env::var("VERIF_REPO").unwrap_or_else(|_| "/repo".into()) + "/README.md";
+        let mut notes = Vec::new();
+        let Ok(txt) = std::fs::read_to_string(&path) else { return notes };
+        for line in txt.lines() {
+            let f: Vec<&str> = line.split('|').map(|s| s.trim()).collect();
+            if f.len() < 5 {
+                continue;
+            }
+            let name = f[1];
+            if key_by_name(name).is_some() {
+                continue; // a key the reference already knows: the transcription decides
+            }
+            let Some(key) = uni.iter().copied().find(|k| format!("{:?}", k) == name) else { continue };
+            let cell = if set == 1 { f[2] } else { f[3] };
+            let Some(h) = cell.strip_prefix("0x") else { continue };
+            let (ctx, code) = if h.len() == 2 {
+                (0usize, u8::from_str_radix(h, 16).ok())
+            } else if h.len() == 4 {
+                (if h[..2].eq_ignore_ascii_case("E0") { 1 } else { 2 }, u8::from_str_radix(&h[2..], 16).ok())
+            } else {
+                continue;
+            };
+            let Some(code) = code else { continue };
+            if self.table[ctx][code as usize].is_none() {
+                self.table[ctx][code as usize] = Some(RefKey { key, oneshot: false });
+                self.entries += 1;
+                notes.push(format!("key {} is not in the transcribed reference; accepted at {} {:02X} on the authority of the README table", name, CTX_NAMES[ctx], code));
+            }
+        }
+        notes
+    }
     /// (ctx, code) of a key, if the set can express it
     pub fn code_of(&self, key: KeyCode) -> Option<(usize, u8)> {
         for ctx in 0..3 {
